@@ -193,7 +193,8 @@ public:
 
   std::string declId(const ValueDecl *D) {
     if (auto *VD = dyn_cast<VarDecl>(D)) {
-      if (VD->isLocalVarDeclOrParm() || VD->isStaticLocal()) {
+      // a block-scope `extern int g;` names the global g, not a local
+      if ((VD->isLocalVarDeclOrParm() && !VD->hasExternalStorage()) || VD->isStaticLocal()) {
         auto It = LocalId.find(VD->getCanonicalDecl());
         if (It != LocalId.end()) return It->second;
         std::string Id = "L" + std::to_string(NextLocal++) + ":" + VD->getNameAsString();
@@ -207,7 +208,7 @@ public:
     if (isa<ParmVarDecl>(D)) return "param";
     if (auto *VD = dyn_cast<VarDecl>(D)) {
       if (VD->isStaticLocal()) return "staticlocal";
-      if (VD->isLocalVarDecl()) return "local";
+      if (VD->isLocalVarDecl() && !VD->hasExternalStorage()) return "local";
       return "global";
     }
     if (isa<FieldDecl>(D)) return "field";
